@@ -380,7 +380,7 @@ func c19ImplicitArch(ctx *evid.Ctx, repo, scratch string, archs []string, withTa
 		atomic.AddInt64(&done, 1)
 		rep := map[string]any{"goarch": ga, "probe": r}
 		if withTable[ga] {
-			if r["getinfo_err"] != nil || r["default_only_err"] != nil || r["named_err"] != nil {
+			if r["getinfo_err"] != nil || r["default_only_err"] != nil || r["named_err"] != nil || r["named_again_err"] != nil || r["named_third_err"] != nil {
 				ctx.Violation("C19:implicit-arch:"+ga, fmt.Sprintf("a binary built for GOARCH %s fails although a syscall table exists: %v", ga, r), rep)
 			}
 			return
@@ -388,7 +388,7 @@ func c19ImplicitArch(ctx *evid.Ctx, repo, scratch string, archs []string, withTa
 		if r["getinfo_err"] == nil {
 			ctx.Violation("C19:implicit-arch:getinfo:"+ga, fmt.Sprintf("in a binary built for GOARCH %s (no syscall table) GetInfo(\"\") succeeds: %v", ga, r), rep)
 		}
-		for _, k := range []string{"default_only", "named"} {
+		for _, k := range []string{"default_only", "named", "default_only_again", "named_again", "default_only_fresh_copy", "named_fresh_copy", "default_only_third", "named_third"} {
 			e, _ := r[k+"_err"].(string)
 			n, _ := r[k+"_len"].(float64)
 			if e == "" || n != 0 {
